@@ -105,7 +105,9 @@ CHECKS = {
         'text': 'KyteaFullwidthFilter::filter is proved for every string: output has the same number of characters, position i of the output is '
                 'fw(input[i]) where fw is the match table re-extracted verbatim from the source on every run, fw is idempotent and never produces NUL.',
         'design_ref': 'DESIGN.md section 5.C16',
-        'note': 'R13 instantiates S = &str (as_ref is the identity there). Tantivy stream half not covered.',
+        'note': 'R13 instantiates S = &str (as_ref is the identity there). The Tantivy clause (tokens tile the original text, carry the original substring, '
+                'consecutive positions, break where the core pipeline breaks) is NOT under contract: it is decided by the bounded sweep c16t on the real '
+                'adapter (own replay crate), labelled bounded.',
         'technique': TECH + '; table extracted as spec function, loop invariant over all strings',
     },
     'C19': {
@@ -113,7 +115,10 @@ CHECKS = {
         'text': 'Model::replace_dictionary is proved to store exactly the argument and leave every other field of the model equal to its old value; '
                 'dictionary()/tag_models() return those fields; WordWeightRecord::new succeeds iff weights.len() == chars(word)+1 and stores its arguments unchanged.',
         'design_ref': 'DESIGN.md section 5.C19',
-        'note': 'R10: word.chars().count() replaced by a verified counting loop (Iterator::count has no vstd spec). CSV tool and the score-difference composition not covered.',
+        'note': 'R10: word.chars().count() replaced by a verified counting loop (Iterator::count has no vstd spec). The score-difference clause and the '
+                'dump / replace clause of the model tool are NOT under contract: they are decided by the bounded sweep c19 (brute-force linear model on '
+                'seeded models; the manipulate_model binary built from /repo: dump, replace with the unmodified dump, byte-for-byte comparison for awkward '
+                'words and comments, rejection of a record with a wrong weight count), labelled bounded.',
         'technique': TECH + '; frame conditions on the model record',
     },
     'C01': {
